@@ -639,6 +639,13 @@ func Main(cfg Config) {
 			stopped = fmt.Sprintf("wall-clock budget of the %s tier (%s) used up after %d of %d histories", *tier, wallBudget, res.Histories, len(work))
 			break
 		}
+		if *outPath != "" {
+			// left behind if the process dies (a fatal runtime error of the implementation cannot be
+			// recovered): bin/check then reports the history that was running
+			if b, err := json.Marshal(map[string]any{"source": w.name, "history": w.h}); err == nil {
+				_ = os.WriteFile(*outPath+".running", b, 0o644)
+			}
+		}
 		o, trace, err := r.runOne(w.h, false)
 		if err != nil {
 			res.Error = err.Error()
@@ -706,6 +713,9 @@ func Main(cfg Config) {
 			res.Extra = map[string]any{}
 		}
 		res.Extra["stopped_early"] = stopped
+	}
+	if *outPath != "" {
+		_ = os.Remove(*outPath + ".running")
 	}
 	res.WallS = time.Since(start).Seconds()
 	b, _ := json.MarshalIndent(res, "", " ")
